@@ -23,7 +23,7 @@ PY
 )
 [ -n "${FORCE_PROPS:-}" ] && PROPS="$FORCE_PROPS"
 W=/tmp/fmw/$ID; WT=$W/repo
-rm -rf "$W"; mkdir -p "$W"
+rm -rf "$W"; mkdir -p "$W" /tmp/mut
 BASE=$(cat "$DIR/BASE" 2>/dev/null || echo HEAD)   # the commit the mutants were generated from
 git -C /repo worktree add -q --detach "$WT" "$BASE" || { echo -e "$ID\tharness-error\tworktree"; exit 2; }
 cleanup() { git -C /repo worktree remove --force "$WT" >/dev/null 2>&1; rm -rf "$W"; }
